@@ -82,6 +82,21 @@ def expr_scenario(ctx, text_terms, finished):
 
     def s_string_clone(ex, st, func, args, ty): return [(st, seqobj(st, 'String', model(st, args[0])))]
 
+    def s_string_push(ex, st, func, args, ty):
+        """String::push(char) on a byte-modelled String: the UTF-8 encoding of the char (concrete or < 0x800 by case split)"""
+        so = obj(st, args[0]); c = args[1]
+        if not isinstance(c, BV) or 'model' not in st.heap[so.oid]: return None
+        t = c.t if c.t.size() == 32 else z3.ZeroExt(32 - c.t.size(), c.t)
+        out = []
+        one = z3.ULT(t, 0x80); two = z3.And(z3.UGE(t, 0x80), z3.ULT(t, 0x800))
+        for cond, bs in ((one, [z3.Extract(7, 0, t)]), (two, [z3.Extract(7, 0, 0xC0 | z3.LShR(t, 6)), z3.Extract(7, 0, 0x80 | (t & 0x3f))])):
+            if not ex.feasible(st, cond): continue
+            s2 = st.clone(); s2.pc.append(cond)
+            o2 = obj(s2, args[0]); s2.heap[o2.oid]['model'] = list(s2.heap[o2.oid]['model']) + [BV(z3.simplify(b)) for b in bs]
+            out.append((s2, UNIT))
+        if ex.feasible(st, z3.UGE(t, 0x800)): return None
+        return out
+
     def s_from_string(ex, st, func, args, ty):
         """reader::from_string(&source): a fresh Reader over the bytes of source (the name truncation is the C05.c obligation)"""
         src = model(st, args[0])
@@ -182,7 +197,7 @@ def expr_scenario(ctx, text_terms, finished):
         (r'<std::string::String as Index<.*>>::index$|<str as Index<.*>>::index$', s_str_index),
         (r'Rc::<.*>::new$', s_identity), (r'Vec::<.*>::is_empty$|String::is_empty$|impl str>::is_empty$', s_seq_is_empty),
         (r'as From<.*>>::from$', s_from_err_guard(s_from_err)), (r'impl str>::trim$', s_str_trim_sym),
-        (r'Option::<JsonValue>::map::<ConstGetters', s_opt_map_const), (r'ToString>::to_string$', s_to_string), (r'<std::string::String as Clone>::clone$', s_string_clone),
+        (r'Option::<JsonValue>::map::<ConstGetters', s_opt_map_const), (r'ToString>::to_string$', s_to_string), (r'<std::string::String as Clone>::clone$', s_string_clone), (r'^(std::string::)?String::push$', s_string_push), (r'^(std::string::)?String::new$', lambda ex, st, f, a, t: [(st, seqobj(st, 'String', []))]),
         (r'^from_string$|reader::from_string$', s_from_string), (r'<std::io::Bytes<R> as Iterator>::next$|<std::io::Bytes<&\[u8\]> as Iterator>::next$', s_bytes_next_data),
         (r'impl str>::to_uppercase$', s_to_uppercase), (r'<&str as Into<std::string::String>>::into$|<std::string::String as From<&str>>::from$', s_string_clone), (r'impl str>::as_str$|String::as_str$', s_identity),
         (r'<str as PartialEq>::eq$|<std::string::String as PartialEq<.*>>::eq$|<&str as PartialEq>::eq$', s_str_eq),
@@ -244,7 +259,7 @@ def describe(sc, st, g):
     return ('?', ty)
 
 
-ARGS = {'lit': (b'1', ('const', ('int', 'Positive'))), 'ext': (b'.a', ('extract', 0, [('key', 'a')])), 'var': (b':v', ('var', 'v')), 'mac': (b'@m', ('macro', 'm')),
+ARGS = {'lit': (b'1', ('const', ('int', 'Positive'))), 'ext': (b'.a', ('extract', 0, [('key', 'a')])), 'var': (b':v', ('var', 'v')), 'uvar': (b':\xc3\xa9', ('var', '\xc3\xa9')), 'mac': (b'@m', ('macro', 'm')),
         'sel': (b'/n/', ('selected', 'n')), 'call': (b'(g)', ('call', 'g', []))}
 
 
@@ -306,7 +321,7 @@ def separators(ctx):
     run.bounds['separators'] = f'skeleton (f A<sep>B) for A in {kinds}, B in {{lit, var}} ({"quick" if ctx.quick else "all pairs"}), separator run of {nseps} free bytes over space/tab/CR/LF/comma'
     run.assume('find_function answers found/unknown and FunctionDefinitions::create answers Ok/arity error (their own behaviour is C18.b); only the found/Ok paths are compared')
     fam = run.family('expr.separators', 'arguments may be separated by any run of whitespace and commas: the argument list is the same for every separator')
-    pairs = [(a, b) for a in kinds for b in (('lit', 'var') if ctx.quick else kinds)]
+    pairs = [(a, b) for a in kinds for b in (('lit', 'var') if ctx.quick else kinds) if a != 'uvar' or b == 'lit'] + [('lit', 'uvar')]
     tasks = [(ctx, a, b, n, 'plain') for a, b in pairs for n in nseps]
     results = pmap(_sep_task, tasks)
     merge(run, fam, results)
@@ -332,10 +347,10 @@ def replay_sep(ctx, cands):
     from .cli import run_jawk, show
     for c in cands:
         mv = c.model; sep = bytes.fromhex(mv['sep_hex']).decode('latin-1')
-        A = {'lit': '1', 'ext': '.a', 'var': ':v', 'mac': '@m', 'sel': '/n/', 'call': '(size "xy")'}[mv['a']]
-        B = {'lit': '1', 'ext': '.a', 'var': ':v', 'mac': '@m', 'sel': '/n/', 'call': '(size "xy")'}[mv['b']]
-        val = {'lit': 1, 'ext': 5, 'var': 7, 'mac': 9, 'sel': 5, 'call': 2}
-        argv = ['--set', 'v=7', '--set', '@m=9', '--select', '.a=n', '--select', f'(+ {A}{sep}{B})=r', '--style', 'consise']
+        A = {'lit': '1', 'ext': '.a', 'var': ':v', 'uvar': ':\u00e9', 'mac': '@m', 'sel': '/n/', 'call': '(size "xy")'}[mv['a']]
+        B = {'lit': '1', 'ext': '.a', 'var': ':v', 'uvar': ':\u00e9', 'mac': '@m', 'sel': '/n/', 'call': '(size "xy")'}[mv['b']]
+        val = {'lit': 1, 'ext': 5, 'var': 7, 'uvar': 11, 'mac': 9, 'sel': 5, 'call': 2}
+        argv = ['--set', 'v=7', '--set', '\u00e9=11', '--set', '@m=9', '--select', '.a=n', '--select', f'(+ {A}{sep}{B})=r', '--style', 'consise']
         r = run_jawk(ctx, argv, b'{"a":5}')
         exp = {'n': 5, 'r': val[mv['a']] + val[mv['b']]}
         try: got = json.loads(show(r['stdout']))
